@@ -408,3 +408,95 @@ theorem parseRpu_writeRpu (r : Rpu) (bytes : Bytes) (hw : writeRpu r = .ok bytes
           exact hc.symm
 
 end Dovi
+
+namespace Dovi
+
+/-! ## executable versions of the shape predicates (evaluated by the driver on real parse results) -/
+
+def BlockFitsB (allowed other : List Nat) (b : Block) : Bool :=
+  allowed.contains b.level && !other.contains b.level && b.level != 0 &&
+  (match blockWriteLayout b.level b.length with
+   | some ws => decide (ws.length ≤ (blockWriteVals b).length)
+   | none => true)
+
+theorem BlockFits_of_B (allowed other : List Nat) (b : Block) (h : BlockFitsB allowed other b = true) :
+    BlockFits allowed other b := by
+  simp only [BlockFitsB, Bool.and_eq_true, Bool.not_eq_true', bne_iff_ne, ne_eq] at h
+  obtain ⟨⟨⟨h1, h2⟩, h3⟩, h4⟩ := h
+  refine ⟨h1, h2, h3, ?_⟩
+  intro ws hws
+  rw [hws] at h4
+  simpa using h4
+
+def ContainerOkB (allowed other : List Nat) (c : Container) : Bool :=
+  c.num_ext_blocks == c.blocks.length && c.blocks.all (BlockFitsB allowed other)
+
+theorem ContainerOk_of_B (allowed other : List Nat) (c : Container) (h : ContainerOkB allowed other c = true) :
+    ContainerOk allowed other c := by
+  simp only [ContainerOkB, Bool.and_eq_true, beq_iff_eq, List.all_eq_true] at h
+  exact ⟨h.1, fun b hb => BlockFits_of_B _ _ _ (h.2 b hb)⟩
+
+def DmWfB (r : Rpu) (d : DmData) : Bool :=
+  ((r.header.reserved_zero_3bits == 1) == d.compressed) &&
+  (match d.cmv29 with | some c => ContainerOkB cmv29Levels cmv40Levels c | none => false) &&
+  (match d.cmv40 with
+   | some c => ContainerOkB cmv40Levels cmv29Levels c && !c.blocks.isEmpty
+   | none => decide ((r.remaining.getD []).length ≤ 8)) &&
+  d.main.length == 32 && decide (d.reparsed = d)
+
+theorem DmWf_of_B (r : Rpu) (d : DmData) (h : DmWfB r d = true) : DmWf r d := by
+  simp only [DmWfB, Bool.and_eq_true, beq_iff_eq, decide_eq_true_eq] at h
+  obtain ⟨⟨⟨⟨h1, h2⟩, h3⟩, h4⟩, h5⟩ := h
+  refine ⟨h1, ?_, ?_, ?_, h4, h5⟩
+  · cases hc : d.cmv29 with
+    | none => simp [hc] at h2
+    | some c => rw [hc] at h2; exact ⟨c, rfl, ContainerOk_of_B _ _ _ h2⟩
+  · intro c hc
+    rw [hc] at h3
+    simp only [Bool.and_eq_true, Bool.not_eq_true', List.isEmpty_eq_false_iff] at h3
+    exact ⟨ContainerOk_of_B _ _ _ h3.1, h3.2⟩
+  · intro hc
+    rw [hc] at h3
+    simpa using h3
+
+def RpuWfB (r : Rpu) : Bool :=
+  r.header.Wf && r.header.rpu_nal_prefix == 25 && r.dovi_profile == r.header.getDoviProfile &&
+  decide (r.el_type = r.rpu_data_mapping.bind Mapping.elType) &&
+  (if r.header.use_prev_vdr_rpu_flag then r.rpu_data_mapping.isNone
+   else match r.rpu_data_mapping with | some m => MappingWf r.header m | none => false) &&
+  (if r.header.vdr_dm_metadata_present_flag then
+     match r.vdr_dm_data with | some d => DmWfB r d | none => false
+   else r.vdr_dm_data.isNone) &&
+  (match r.remaining with | some rem => !rem.isEmpty && rem.length % 8 == 0 | none => true)
+
+theorem RpuWf_of_B (r : Rpu) (h : RpuWfB r = true) : RpuWf r := by
+  simp only [RpuWfB, Bool.and_eq_true, beq_iff_eq, decide_eq_true_eq] at h
+  obtain ⟨⟨⟨⟨⟨⟨h1, h2⟩, h3⟩, h4⟩, h5⟩, h6⟩, h7⟩ := h
+  refine ⟨h1, h2, h3, h4, ?_, ?_, ?_⟩
+  · cases hu : r.header.use_prev_vdr_rpu_flag with
+    | true => simp only [hu, if_true, Option.isNone_iff_eq_none] at h5 ⊢; exact h5
+    | false =>
+      simp only [hu, Bool.false_eq_true, if_false] at h5 ⊢
+      cases hm : r.rpu_data_mapping with
+      | none => simp [hm] at h5
+      | some m => rw [hm] at h5; exact ⟨m, rfl, h5⟩
+  · cases hu : r.header.vdr_dm_metadata_present_flag with
+    | false => simp only [hu, Bool.false_eq_true, if_false, Option.isNone_iff_eq_none] at h6 ⊢; exact h6
+    | true =>
+      simp only [hu, if_true] at h6 ⊢
+      cases hd : r.vdr_dm_data with
+      | none => simp [hd] at h6
+      | some d => rw [hd] at h6; exact ⟨d, rfl, DmWf_of_B r d h6⟩
+  · intro rem hr
+    rw [hr] at h7
+    simp only [Bool.and_eq_true, Bool.not_eq_true', List.isEmpty_eq_false_iff, beq_iff_eq] at h7
+    exact h7
+
+/-- the executable form of the main theorem's hypothesis: whenever the decidable shape check passes and the
+write succeeds, the written bytes parse back to the RPU -/
+theorem parseRpu_writeRpu_dec (r : Rpu) (bytes : Bytes) (hw : writeRpu r = .ok bytes) (hwf : RpuWfB r = true) :
+    ∃ crc, parseRpu bytes = .ok { r with rpu_data_crc32 := crc, modified := false } ∧
+      (r.modified = false → crc = r.rpu_data_crc32) :=
+  parseRpu_writeRpu r bytes hw (RpuWf_of_B r hwf)
+
+end Dovi
